@@ -140,6 +140,13 @@ func newScenario(r *gen.R, nscripts int) *Scenario {
 	ntx := 3 + r.IntN(4)
 	for i := 0; i < ntx; i++ {
 		s.Txs = append(s.Txs, gen.Transaction(r, w, 5+r.IntN(10)))
+		if r.IntN(6) == 0 {
+			s.Txs = append(s.Txs, gen.FieldTx(r))
+		}
+	}
+	if r.IntN(2) == 0 {
+		// destroys stored resources without importing the declaring contract
+		s.Txs = append(s.Txs, gen.SweeperTx(r))
 	}
 	return s
 }
